@@ -11,15 +11,16 @@ RULE = ("cases = a generated class (random fields a,b, a non-random field k whos
         "statements, two dynamic blocks d0/d1) and a history over a population of instances: create an instance (before or "
         "after the target), call randomize()/randomize_with(inline) on instance i where the inline set mixes plain "
         "constraints with Boolean combinations (| & ~) of dynamic-constraint references, consecutive calls with "
-        "contradicting inline sets, and calls on a holder object referencing a list element's dynamic block "
-        "(it.arr[i].d0()).  Oracle per call: enumerated S_ref = class blocks AND this call's inline block with dynamic "
+        "contradicting inline sets, calls on a holder object referencing a list element's dynamic block "
+        "(it.arr[i].d0()), and 2-4 randomize() calls on a holder whose CLASS constraint is self.arr[self.sel].dN() with the "
+        "non-random index sel reassigned between the calls.  Oracle per call: enumerated S_ref = class blocks AND this call's inline block with dynamic "
         "references expanded over the fields of the object they were reached through; free draw in S_ref, SolveFailure iff "
         "empty; pinned probes: a value the previous call's inline block forbade must be accepted again, a value the "
         "referenced dynamic block forbids on this instance must be rejected, an unreferenced dynamic block must not "
         "restrict.  non-trivial = >=2 live instances with different k, >=2 calls on one instance with different inline sets "
         "and a dynamic reference under | or ~; distinct = distinct canonical case")
 ASSUMPTIONS = [
-    "dynamic blocks are referenced only from inline blocks (randomize_with), as documented",
+    "dynamic blocks are referenced from inline blocks (randomize_with), as documented, and from one class constraint of a holder (through a list element selected by a non-random index)",
     "every dynamic block and inline statement references a field",
 ]
 
@@ -94,6 +95,13 @@ def cases(d):
             ops.append(["call", d.randint(0, n - 1), "randomize", None, d.seed()])
         elif r < 85 or n < 2:
             ops.append(["call", d.randint(0, n - 1), "randomize_with", gen_inline(d, g), d.seed()])
+        elif r < 90:
+            # holder whose CLASS constraint references the dynamic block of the element selected by a non-random index;
+            # the index is reassigned between the calls
+            i, j = d.sample(list(range(n)), 2)
+            has_fe = any(s_[0] == "foreach" for s_ in cls["dyn"][1]["stmts"])
+            ops.append(["h2call", [i, j], "d0" if (has_fe or d.chance(50)) else "d1",
+                        [[d.randint(0, 1), d.seed()] for _ in range(d.randint(2, 4))]])
         else:
             # holder call: instances i and j become elements of a holder's list; reference element dynamic blocks
             i, j = d.sample(list(range(n)), 2)
@@ -113,6 +121,24 @@ HOLDER_SRC = '''
 class H(object):
     def __init__(self):
         self.arr = vsc.rand_list_t(T())
+
+@vsc.randobj
+class H2a(object):
+    def __init__(self):
+        self.sel = vsc.bit_t(2)
+        self.arr = vsc.rand_list_t(T())
+    @vsc.constraint
+    def hc(self):
+        self.arr[self.sel].d0()
+
+@vsc.randobj
+class H2b(object):
+    def __init__(self):
+        self.sel = vsc.bit_t(2)
+        self.arr = vsc.rand_list_t(T())
+    @vsc.constraint
+    def hc(self):
+        self.arr[self.sel].d1()
 '''
 
 
@@ -137,6 +163,27 @@ def has_dyn_under_op(stmts):
             if e[0] == "bin" and e[1] == "|" and (e[2][0] == "dyn" or e[3][0] == "dyn"):
                 return True
     return False
+
+
+def holder_ref(cls, class_stmts, dyn, pair, objs, kvals, lvals):
+    """reference problem of a holder whose list holds the instances `pair`"""
+    htypes, hrf, env0, hstmts, hdyn = {}, [], {}, [], {}
+    for e_i, src in enumerate(pair):
+        p = "arr[%d]." % e_i
+        for f in cls["fields"]:
+            ff = dict(f, name=p + f["name"])
+            htypes[ff["name"]] = ff
+            if f["rand"]:
+                hrf.append(ff)
+        env0[p + "a"], env0[p + "b"], env0[p + "k"] = int(objs[src].a), int(objs[src].b), kvals[src]
+        htypes[p + "nl[]"] = {"kind": "bit", "w": 3, "signed": False}
+        env0["#" + p + "nl"] = len(lvals[src])
+        for j_, v_ in enumerate(lvals[src]):
+            env0["%snl[%d]" % (p, j_)] = v_
+        hstmts += [prefix_stmt(s, p) for s in class_stmts]
+        for dn, ds in dyn.items():
+            hdyn[p + dn] = [prefix_stmt(s, p) for s in ds]
+    return htypes, hrf, env0, hstmts, hdyn
 
 
 def run_case(case):
@@ -256,6 +303,43 @@ def run_case(case):
                         return [V("pin_nonmember_returned", "inline set accepts a value its dynamic/plain constraints forbid on this instance", case,
                                   where + ": pin a=%d b=%d (k=%d) accepted" % (v[0], v[1], kvals[i]))], info
             continue
+        if op[0] == "h2call":
+            _, (i, j), dname, calls = op
+            if i == j or dname not in dyn or any(s_[0] == "foreach" for s_ in dyn[dname]):
+                continue
+            try:
+                h = ns["H2a" if dname == "d0" else "H2b"]()
+                h.arr.append(objs[i])
+                h.arr.append(objs[j])
+            except Exception as e:
+                reset_library()
+                return [V("library_exception", "holder construction: " + exc_sig(e), case, where + " raised %r" % (e,))], info
+            for selv, seed in calls:
+                htypes, hrf, env0, hstmts, hdyn = holder_ref(cls, class_stmts, dyn, (i, j), objs, kvals, lvals)
+                ref = [["expr", ["dyn", "arr[%d].%s" % (selv, dname)]]]
+                allv, sols = flat.enumerate_solutions(htypes, hrf, env0, hstmts + ref, hdyn)
+                try:
+                    h.sel = selv
+                except Exception as e:
+                    reset_library()
+                    return [V("library_exception", "assign: " + exc_sig(e), case, where)], info
+                st, exc = flat.do_call(ns, h, "randomize", None, seed)
+                info["calls"] += 1
+                info["h2calls"] = info.get("h2calls", 0) + 1
+                wh = where + " call(sel=%d, seed=%d)" % (selv, seed)
+                if st == "exc":
+                    reset_library()
+                    return [V("library_exception", "holder randomize: " + exc.sig, case, wh + " raised %r" % (exc,))], info
+                got = (int(objs[i].a), int(objs[i].b), int(objs[j].a), int(objs[j].b))
+                if st == "sf":
+                    if sols:
+                        return [V("spurious_solve_failure", "holder with class-level reference", case, wh)], info
+                elif not sols:
+                    return [V("returned_on_unsat", "holder with class-level reference", case, wh + " returned %s" % (got,))], info
+                elif got not in set(sols):
+                    return [V("wrong_binding", "dynamic block referenced from a class constraint through arr[sel] constrains the wrong element", case,
+                              wh + ": elements (k=%d, k=%d) got %s; allowed e.g. %s" % (kvals[i], kvals[j], got, sols[:3]))], info
+            continue
         if op[0] == "hcall":
             _, (i, j), inline, seed = op
             try:
@@ -317,6 +401,7 @@ def body(case, acc):
     if any(s_[0] == "foreach" for b in case["cls"]["dyn"] for s_ in b["stmts"]):
         acc.label("foreach inside a dynamic block")
     acc.label("list edits", info.get("list_edits", 0))
+    acc.label("calls on a holder whose class constraint references arr[sel].dyn()", info.get("h2calls", 0))
     if pred_elem_dyn_foreach(case):
         acc.label("known-finding shape: element dynamic block with foreach")
     return vios
